@@ -143,20 +143,10 @@ RESERVED_PROP = {"BEGIN", "END"}
 RESERVED_PARAM = {"VALUE", "TZID", "ENCODING"}
 
 
-def _judge_optimised(case):
-    """configuration: the same case in an interpreter started with -O (assert statements are compiled away)"""
-    import json, os, subprocess, sys
-    from vlib.runner import VERIF, REPO
-    p = subprocess.run([sys.executable, "-O", os.path.join(VERIF, "tools", "c05_child.py")], input=json.dumps(case).encode(),
-                       stdout=subprocess.PIPE, stderr=subprocess.PIPE, env=dict(os.environ, VERIF_REPO=REPO, PYTHONHASHSEED="0"), timeout=120)
-    if p.returncode != 0:
-        raise RuntimeError(f"python -O child failed: {p.stderr.decode()[-500:]}")
-    return [Failure(c, s_ + "/python-O", d) for c, s_, d in json.loads(p.stdout)]
-
-
 def judge(case):
     if case.get("interp") == "-O":
-        return _judge_optimised(case)
+        from vlib.runner import judge_under_python_O
+        return judge_under_python_O("c05_contentline", case)
     sut.reset()
     name, pm, kind, v = case["name"], case["params"], case["kind"], case["value"]
     fails = []
